@@ -16,7 +16,8 @@ TRUSTED = [
     "(kind, table, name, reflected, compare_to is not None); the theorems are about predicates over the full abstract objects",
 ]
 ASSUME = [
-    "schemas well formed as for C06; universe as for C06 (tables, columns, unique constraints, indexes, foreign keys: all five filter types)",
+    "schemas well formed as for C06; universe as for C06 (tables, columns, unique constraints, indexes, foreign keys: all five filter "
+    "types) plus UNNAMED foreign keys (name None); unnamed unique constraints are not modelled",
     "acc (the objects 'neither filter rejects'): the operation's own names are accepted, the include_object calls the unfiltered "
     "comparison makes for its table and object say yes, and - foreign keys being matched by signature - no reflected foreign key with "
     "the signature of an added key is name-rejected",
@@ -26,7 +27,7 @@ ASSUME = [
 RULE = ("seeded random schema pairs as for C06 (B = A after 1-6 random changes) x random filter pairs: include_object is a decision "
         "table over (kind, table, name, reflected, compare_to is None) for the objects of A and B with ~20% rejections (sometimes default "
         "reject), include_name a table over reflected names with ~15% rejections (schema rejected in ~2%); both installed as real "
-        "callables that also log every invocation. non-trivial = the unfiltered comparison yields an operation and at least one filter "
+        "callables that also log every invocation (with a digest of the object and of compare_to); in half of the cases 1-2 content rules (reject a table that has column X / a reflected table with an index / a table with a foreign key / a column of type family F / an index or unique constraint over column X / a foreign key to table T / when compare_to has column X) are added, and in half of the cases about half of the foreign keys are declared without a name (reflected with name None; include_name then sees (None, foreign_key_constraint, parent table)). non-trivial = the unfiltered comparison yields an operation and at least one filter "
         "call returned False; distinct by the encoded case")
 EXHAUSTIVE = {"quick": False, "thorough": False}
 CASE_TIMEOUT = 60
@@ -52,7 +53,7 @@ def _refs(schemas):
             for k in t["cons"]:
                 refs.add(("u" if k[0] == "uq" else "i", t["name"], k[1]))
             for f in t.get("fks", []):
-                refs.add(("f", t["name"], f[0]))
+                refs.add(("f", t["name"], f[0]) if S.fk_named(f) else ("g", t["name"]))
     return sorted(refs)
 
 
@@ -74,11 +75,28 @@ def gen_filter(rnd, A, B):
             for refl in (False, True):
                 for cmp_ in (False, True):
                     obj.append([list(r), refl, cmp_, rnd.random() >= pobj])
-    name = [[list(r), rnd.random() >= pname] for r in refs]
+    # unnamed foreign keys can only be told apart by (type_, parent table): reject them more often
+    name = [[list(r), rnd.random() >= (max(pname, 0.4) if (r[0] == "g" and pname > 0) else pname)] for r in refs]
     if mode != "object" and rnd.random() < 0.03:
         name.append([["s"], False])
     rnd.shuffle(obj)
-    return {"obj": obj, "obj_d": obj_d, "name": name, "name_d": name_d}
+    # content rules: predicates that look inside the object (and inside compare_to)
+    rules = []
+    if rnd.random() < 0.5:
+        cols = sorted({c[0] for Sx in (A, B) for t in Sx for c in t["cols"] if c[0] != 0})
+        tabs = sorted({t["name"] for Sx in (A, B) for t in Sx})
+        fams = sorted({c[1] for Sx in (A, B) for t in Sx for c in t["cols"]})
+        for _ in range(rnd.choice([1, 1, 2])):
+            k = rnd.choice(["tab_has_col", "tab_has_col", "refl_tab_has_ix", "tab_has_fk", "col_fam", "cons_on_col", "fk_to", "cmp_tab_has_col"])
+            if k in ("tab_has_col", "cons_on_col", "cmp_tab_has_col"):
+                if cols: rules.append([k, rnd.choice(cols)])
+            elif k == "col_fam":
+                rules.append([k, rnd.choice(fams)])
+            elif k == "fk_to":
+                rules.append([k, rnd.choice(tabs)])
+            else:
+                rules.append([k])
+    return {"obj": obj, "obj_d": obj_d, "name": name, "name_d": name_d, "rules": rules}
 
 
 def _cases(rnd, n):
@@ -88,6 +106,15 @@ def _cases(rnd, n):
             B2, d = S.mutate(rnd, B)
             if B2 is not None and S.no_dangling(A, B2):
                 B = B2
+        if rnd.random() < 0.5:          # some foreign keys are declared without a name (reflected with name None on SQLite)
+            import copy
+            A, B = copy.deepcopy(A), copy.deepcopy(B)
+            for Sx in (A, B):
+                for t in Sx:
+                    for fk in t["fks"]:
+                        if rnd.random() < 0.5:
+                            while len(fk) < 6: fk.append([None, None, None, None] if len(fk) == 4 else True)
+                            fk[5] = False
         yield {"A": A, "B": B, "f": gen_filter(rnd, A, B)}
 
 
@@ -105,13 +132,56 @@ def q_ref(r):
     k = r[0]
     if k == "s": return "NSchema"
     if k == "t": return "(NTable %d)" % r[1]
+    if k == "g": return "(NFkU %d)" % r[1]
     return "(%s %d %d)" % ({"c": "NColumn", "u": "NUq", "i": "NIx", "f": "NFk"}[k], r[1], r[2])
 
 
 def q_filter(f):
     obj = cf.lst("((%s, %s, %s), %s)" % (q_ref(r), cf.boolean(a), cf.boolean(b), cf.boolean(v)) for r, a, b, v in f["obj"])
     name = cf.lst("(%s, %s)" % (q_ref(r), cf.boolean(v)) for r, v in f["name"])
-    return "(mkFilt %s %s %s %s)" % (obj, cf.boolean(f["obj_d"]), name, cf.boolean(f["name_d"]))
+    return "(mkFilt %s %s %s %s %s)" % (obj, cf.boolean(f["obj_d"]), name, cf.boolean(f["name_d"]), cf.lst(q_rule(r) for r in f.get("rules", [])))
+
+
+def q_rule(r):
+    k = r[0]
+    if k == "tab_has_col": return "(RTabHasCol %d)" % r[1]
+    if k == "refl_tab_has_ix": return "RReflTabHasIx"
+    if k == "tab_has_fk": return "RTabHasFk"
+    if k == "col_fam": return "(RColFam %d)" % r[1]
+    if k == "cons_on_col": return "(RConsOnCol %d)" % r[1]
+    if k == "fk_to": return "(RFkTo %d)" % r[1]
+    if k == "cmp_tab_has_col": return "(RCmpTabHasCol %d)" % r[1]
+    raise AssertionError(k)
+
+
+def digest(obj, type_):
+    """what the filter can read off the object it is handed (mirrors Filters.v obj_digest)"""
+    import sqlalchemy as sa
+    from sqlalchemy.dialects import sqlite
+    if obj is None: return []
+    if type_ == "table":
+        return [S.un(c.name, "c") for c in obj.c] + [len(obj.indexes), len(obj.foreign_key_constraints)]
+    if type_ == "column":
+        return [S.abs_type(obj.type, sqlite.dialect())[0], 1 if obj.nullable else 0]
+    if type_ in ("index", "unique_constraint"):
+        return [S.un(c.name, "c") for c in obj.columns]
+    if type_ == "foreign_key_constraint":
+        f = S.abs_fk_of_constraint_any(obj)
+        return f[1] + [f[2]] + f[3]
+    raise AssertionError(type_)
+
+
+def rule_rejects(r, obj, type_, reflected, compare_to):
+    import sqlalchemy as sa
+    k = r[0]
+    if k == "tab_has_col": return type_ == "table" and S.cn(r[1]) in obj.c
+    if k == "refl_tab_has_ix": return bool(reflected) and type_ == "table" and len(obj.indexes) > 0
+    if k == "tab_has_fk": return type_ == "table" and len(obj.foreign_key_constraints) > 0
+    if k == "col_fam": return type_ == "column" and digest(obj, type_)[0] == r[1]
+    if k == "cons_on_col": return type_ in ("index", "unique_constraint") and r[1] in digest(obj, type_)
+    if k == "fk_to": return type_ == "foreign_key_constraint" and S.abs_fk_of_constraint_any(obj)[2] == r[1]
+    if k == "cmp_tab_has_col": return isinstance(compare_to, sa.Table) and S.cn(r[1]) in compare_to.c
+    raise AssertionError(k)
 
 
 def make_filters(f, log):
@@ -129,7 +199,7 @@ def make_filters(f, log):
         if type_ == "unique_constraint":
             return ("u", tname, S.un(name, "k"))
         if type_ == "foreign_key_constraint":
-            return ("f", tname, S.un(name, "f"))
+            return ("g", tname) if name is None else ("f", tname, S.un(name, "f"))
         raise AssertionError("unexpected filter type %r" % (type_,))
 
     def include_object(obj, name, type_, reflected, compare_to):
@@ -137,8 +207,8 @@ def make_filters(f, log):
         if obj.name != name:
             raise AssertionError("name argument differs from object.name")
         key = (r, bool(reflected), compare_to is not None)
-        log.append(["o", list(r), key[1], key[2]])
-        return otab.get(key, f["obj_d"])
+        log.append(["o", list(r), key[1], key[2], digest(obj, type_), digest(compare_to, type_)])
+        return otab.get(key, f["obj_d"]) and not any(rule_rejects(x, obj, type_, reflected, compare_to) for x in f.get("rules", []))
 
     def include_name(name, type_, parents):
         if type_ == "schema":
@@ -148,6 +218,10 @@ def make_filters(f, log):
             r = ("t", S.un(name, "t"))
         else:
             tname = S.un(parents["table_name"], "t")
+            if type_ == "foreign_key_constraint" and name is None:
+                r = ("g", tname)
+                log.append(["n", list(r)])
+                return ntab.get(r, f["name_d"])
             r = ({"column": "c", "index": "i", "unique_constraint": "u", "foreign_key_constraint": "f"}[type_], tname,
                  S.un(name, {"column": "c", "foreign_key_constraint": "f"}.get(type_, "k")))
         log.append(["n", list(r)])
@@ -165,13 +239,13 @@ def run_case(h):
     try:
         with e.connect() as conn:
             _, ms0 = S.compare(conn, mdB, (True, True))
-            plain = S.abs_ops(ms0.upgrade_ops, conn.dialect)
+            plain = S.abs_ops(ms0.upgrade_ops, conn.dialect, A, B)
             io, iname = make_filters(f, log)
             _, ms1 = S.compare(conn, S.build_metadata(B), (True, True), include_object=io, include_name=iname)
-            filt = S.abs_ops(ms1.upgrade_ops, conn.dialect)
+            filt = S.abs_ops(ms1.upgrade_ops, conn.dialect, A, B)
     finally:
         e.dispose()
-    qcalls = cf.lst(("(TN %s)" % q_ref(c[1])) if c[0] == "n" else "(TO %s %s %s)" % (q_ref(c[1]), cf.boolean(c[2]), cf.boolean(c[3]))
+    qcalls = cf.lst(("(TN %s)" % q_ref(c[1])) if c[0] == "n" else "(TO %s %s %s %s %s)" % (q_ref(c[1]), cf.boolean(c[2]), cf.boolean(c[3]), cf.nlist(c[4]), cf.nlist(c[5]))
                     for c in log)
     cin = "(%s, %s, %s)" % (S.q_schema(A), S.q_schema(B), q_filter(f))
     cout = "(mkOut20 %s %s %s)" % (S.q_ops(filt), S.q_ops(plain), qcalls)
